@@ -1,5 +1,6 @@
 """C04, C12: DBC parser (pkg/dbc/parser.go, def.go, text/scanner subset). DESIGN.md 5.4, 5.12."""
 import vlib
+from checks import parser_tie
 
 _NOTE = ("Trusted: Coq 8.16.1 kernel; extraction (ExtrOcamlBasic) + OCaml 4.13.1; the hand-written models "
          "Dbc/Scanner.v (text/scanner subset), Dbc/Parser.v (parser.go, def.go), Dbc/DecFloat.v (strconv.ParseFloat as the "
@@ -128,6 +129,10 @@ RULES = {
            "BA_DEF_DEF_ / BA_ references that match no BA_DEF_ exactly (counted as c12a-file-attr-*-near-collision)",
 }
 
+for _pid in ("C04", "C12"):
+    PROPERTIES[_pid] = dict(PROPERTIES[_pid], text=PROPERTIES[_pid]["text"] + parser_tie.TIE_TEXT,
+                            note=PROPERTIES[_pid]["note"] + parser_tie.TIE_NOTE)
+
 ASSUME = [
     "the Gallina models Dbc/Scanner.v, Dbc/Parser.v, Dbc/DecFloat.v are faithful transcriptions of text/scanner (go1.23), "
     "pkg/dbc/parser.go, def.go and strconv: checked on every run by the differential comparison on generated inputs (sampled)",
@@ -192,6 +197,8 @@ def harness_args(pid, tier, seed):
 def run(res, replay=None):
     pid = res.id
     vlib.proof_stage(res)
+    # stage parser_tie: the parseFrom methods regenerated from the source = the hand model, for all parser states
+    parser_tie.run_parser_tie(res)
     counts = {}
     vlib.standard_run(
         res, "parser", harness_args(pid, res.tier, res.seed), "parser", RULES[pid], ASSUME,
